@@ -167,7 +167,7 @@ Proof. exact plen6_digits_whole. Qed.
 Print Assumptions C11_plen6_digits_whole.
 
 Theorem C11_groups_of_value_facts :
-  forall a, (0 <= a < 2 ^ 128)%Z -> length (groups_of_value a) = 8 /\ Forall lt16 (groups_of_value a) /\ value_of (groups_of_value a) = a.
+  forall a, (0 <= a < 2 ^ 128)%Z -> (length (groups_of_value a) = 8)%nat /\ Forall lt16 (groups_of_value a) /\ value_of (groups_of_value a) = a.
 Proof. exact groups_of_value_facts. Qed.
 Print Assumptions C11_groups_of_value_facts.
 
